@@ -177,8 +177,8 @@ EMIT_RULES = [
     (r"auto funcDirective = dynamic_cast<Func\*>\(directive\.get\(\)\);", "Directive *funcDirective = directive;", 1, 1),
     (r"auto procDirective = dynamic_cast<Proc\*>\(directive\.get\(\)\);", "Directive *procDirective = directive;", 1, 1),
     (r"debugInfo\.push_back\(std::make_pair\((\w+)->getLabel\(\), byteOffset\)\);", r"DEBUGINFO_PUSH(Label_getLabel(\1), byteOffset);", 2, 2),
-    (r"outputFile\.put\(", "OUT_PUT(", 4),
-    (r"outputFile\.write\(reinterpret_cast<const char\*>\(&(\w+)\), (\w+)\);", r"OUT_WRITE(&\1, \2);", 2, 2),
+    (r"outputFile\.put\(", "OUT_PUT(", 3),
+    (r"outputFile\.write\(reinterpret_cast<const char\*>\(&(\w+)\), (\w+)\);", r"OUT_WRITE(&\1, \2);", 1),
     (r"auto dataDirective = dynamic_cast<Data\*>\(directive\.get\(\)\);", "Directive *dataDirective = directive;", 1, 1),
     (r"auto value = dataDirective->getValue\(\);", "int value = Data_getValue(dataDirective);", 1, 1),
     (r"hex::Instr::", "", 3),
